@@ -104,6 +104,12 @@ Theorem C15_export_jsonlike : forall v, jsonlike v = true ->
 Proof. exact export_jsonlike_total. Qed.
 Print Assumptions C15_export_jsonlike.
 
+(* Export returns on every object graph a script can build, cycles included: a reference back to an object
+   the export is inside of becomes nil, and the recursion depth is bounded by the number of objects *)
+Theorem C15_export_graph_total : forall (h : heap) v, exists t, gexport (S (length h)) [] h v = Some t.
+Proof. exact gexport_total. Qed.
+Print Assumptions C15_export_graph_total.
+
 (* ---------- bindings: a read sees the last write, whatever came before ---------- *)
 Theorem C15_read_after_write : forall st s v v' n g,
   hrun st [HSet s v n g; HGet s v' n] = [cv_of g].
@@ -153,11 +159,6 @@ Proof.
 Qed.
 Print Assumptions C15_wide_int_text_refuted.
 
-(* var a = {}; a.a = a : Export follows the reference for ever (no fuel suffices); in Go the stack overflows *)
-Theorem C15_export_cyclic_refuted : exists h v, forall fuel, gexport fuel h v = None.
-Proof. exists cyclic_heap, (HRef 0). exact export_cyclic_diverges. Qed.
-Print Assumptions C15_export_cyclic_refuted.
-
 (* [1,,2]: the hole is dropped *)
 Theorem C15_export_holes_refuted : exists v, export_m v <> Ok (export_s v).
 Proof. exists (JArr [Some (JNumI KInt64 1); None; Some (JNumI KInt64 2)]). vm_compute. discriminate. Qed.
@@ -177,8 +178,11 @@ Example C15_float32_regression :
   marshal_json (fun _ => []) (fun s => s) (toValue false (GF64 nan_bits)) = Some str_null.
 Proof. vm_compute. repeat split; reflexivity. Qed.
 
+Example C15_export_cyclic_regression :
+  gexport 2 [] cyclic_heap (HRef 0) = Some (GNode [([97], GBack)]).
+Proof. exact export_cyclic_example. Qed.
 Example C15_export_acyclic_met :
-  gexport 3 [[([97], HRef 1%nat); ([99], HNum 2)]; [([98], HNum 1)]] (HRef 0) =
+  gexport 3 [] [[([97], HRef 1%nat); ([99], HNum 2)]; [([98], HNum 1)]] (HRef 0) =
   Some (GNode [([97], GNode [([98], GLeaf 1)]); ([99], GLeaf 2)]).
 Proof. exact export_acyclic_example. Qed.
 
